@@ -334,6 +334,44 @@ def local_passed_to(func_text: str, index: int):
     return find
 
 
+def local_passed_as(func_suffix: str, kw: str):
+    """finder: the unique local handed as keyword argument `kw` to calls of a function whose dotted name ends in `func_suffix`"""
+
+    def find(asg, fn):
+        hits = set()
+        for c in ast.walk(fn):
+            if isinstance(c, ast.Call) and (ast.unparse(c.func) == func_suffix or ast.unparse(c.func).endswith("." + func_suffix)):
+                for k in c.keywords:
+                    if k.arg == kw and isinstance(k.value, ast.Name):
+                        hits.add(k.value.id)
+        return hits.pop() if len(hits) == 1 else None
+
+    return find
+
+
+def local_none_then_loop_index():
+    """finder: the unique local that is bound to None outside every loop and, inside a for-loop under an `if`, to the loop's
+    counter (`fail = None` ... `for i, .. in enumerate(..): if <..>: fail = i`) - the recorded position of the first failure"""
+
+    def find(asg, fn):
+        hits = set()
+        for loop in ast.walk(fn):
+            if not isinstance(loop, ast.For):
+                continue
+            counters = {x.id for x in ast.walk(loop.target) if isinstance(x, ast.Name)}
+            for g in ast.walk(loop):
+                if isinstance(g, ast.If):
+                    for s in g.body:
+                        if isinstance(s, ast.Assign) and len(s.targets) == 1 and isinstance(s.targets[0], ast.Name) \
+                                and isinstance(s.value, ast.Name) and s.value.id in counters:
+                            nm = s.targets[0].id
+                            if any(isinstance(v, ast.Constant) and v.value is None for v in asg.get(nm, []) if isinstance(v, ast.AST)):
+                                hits.add(nm)
+        return hits.pop() if len(hits) == 1 else None
+
+    return find
+
+
 def loop_var_over(text: str):
     """finder: the variable(s) that range over `text` in for-loops / comprehensions (`for x in T`, `for i, x in enumerate(T)`)"""
 
@@ -911,3 +949,84 @@ def specialize(stmts, var, val, consts):
         if ends(out):
             break
     return out
+
+
+def ifexp_assignments(f):
+    """Copy of Func `f` in which an `if T: x = A [; y = C] else: x = B [; y = D]` whose arms only bind the same plain names
+    becomes `x = A if T else B [; y = C if T else D]` (bottom-up, so nested decisions fold), and `x = B; if T: x = A` becomes
+    `x = A if T else B`.  A value decided by control flow is then an expression that `Env.expand` can spell out.  Only for
+    tests without calls other than the pure builtins (the test is evaluated once per bound name)."""
+    node = copy.deepcopy(f.node)
+    changed = False
+    PURE = {"set", "frozenset", "len", "bool", "isinstance", "any", "all", "sorted", "list", "tuple", "int", "str"}
+
+    def pure(t):
+        for c in ast.walk(t):
+            if isinstance(c, ast.Call):
+                fn = c.func
+                if isinstance(fn, ast.Name) and fn.id in PURE:
+                    continue
+                if isinstance(fn, ast.Attribute) and fn.attr in ("difference", "issubset", "issuperset", "intersection", "union", "symmetric_difference", "keys", "isdisjoint", "is_file", "exists"):
+                    continue
+                return False
+            if isinstance(c, (ast.NamedExpr, ast.Await, ast.Yield, ast.YieldFrom)):
+                return False
+        return True
+
+    def binds(arm):
+        """{name: value} when the arm is a run of `name = value` statements (each name once), else None"""
+        out = {}
+        for s in arm:
+            if isinstance(s, ast.Assign) and len(s.targets) == 1 and isinstance(s.targets[0], ast.Name) and s.targets[0].id not in out:
+                out[s.targets[0].id] = s.value
+            elif isinstance(s, ast.AnnAssign) and isinstance(s.target, ast.Name) and s.value is not None and s.target.id not in out:
+                out[s.target.id] = s.value
+            else:
+                return None
+        # a later value must not read an earlier name of the same arm (the fold evaluates them independently)
+        names = set(out)
+        for k, v in out.items():
+            if any(isinstance(x, ast.Name) and x.id in names for x in ast.walk(v)):
+                return None
+        return out
+
+    def rewrite(blk):
+        nonlocal changed
+        for s in blk:
+            for fld in ("body", "orelse", "finalbody"):
+                sub = getattr(s, fld, None)
+                if isinstance(sub, list) and sub and isinstance(sub[0], ast.stmt):
+                    rewrite(sub)
+            for h in getattr(s, "handlers", []) or []:
+                rewrite(h.body)
+            for c in getattr(s, "cases", []) or []:
+                rewrite(c.body)
+        i = 0
+        while i < len(blk):
+            s = blk[i]
+            if isinstance(s, ast.If) and pure(s.test):
+                a = binds(s.body)
+                b = binds(s.orelse) if s.orelse else None
+                if a and b and set(a) == set(b) and not any(isinstance(x, ast.Name) and x.id in a for x in ast.walk(s.test)):
+                    new = [ast.copy_location(ast.Assign([ast.Name(k, ast.Store())], ast.IfExp(copy.deepcopy(s.test), a[k], b[k])), s) for k in a]
+                    blk[i:i + 1] = new
+                    changed = True
+                    i += len(new)
+                    continue
+                if a and not s.orelse and len(a) == 1 and i > 0:
+                    (k, v), = a.items()
+                    p = blk[i - 1]
+                    if isinstance(p, ast.Assign) and len(p.targets) == 1 and isinstance(p.targets[0], ast.Name) and p.targets[0].id == k \
+                            and not any(isinstance(x, ast.Name) and x.id == k for x in ast.walk(s.test)):
+                        blk[i - 1:i + 1] = [ast.copy_location(ast.Assign([ast.Name(k, ast.Store())], ast.IfExp(copy.deepcopy(s.test), v, p.value)), s)]
+                        changed = True
+                        continue
+            i += 1
+
+    rewrite(node.body)
+    if not changed:
+        return f
+    ast.fix_missing_locations(node)
+    g = dataclasses.replace(f)
+    g.node = node
+    return g
